@@ -9,7 +9,7 @@ from ..core import AnalysisError
 from ..grammar import SPEC_PYTYPE, SPEC_FIXED
 from ..interp_base import Raised, Run, Limit, short_exc
 from ..plans import export_desc
-from ..values import ClassV, FuncV, LibFn, Sym, LibClass, show_term
+from ..values import ClassV, FuncV, LibFn, Sym, LibClass, show_term, EnumMemberV
 
 PID = "C12"
 LEVEL = "other"
@@ -87,6 +87,14 @@ def check(rep, ctx):
     file = ctx.sm.require("kio.static.primitive").rel
     expected = {n: rng(*w) for n, w in INTS.items()}
     expected.update(VARINTS)
+    concrete_members = [(True, "True")]
+    try:
+        ec_ = I.module("kio.schema.errors").env.vars.get("ErrorCode")
+        m_ = next((m for m in (ec_.flags.get("enum") or {}).values() if getattr(m, "name", "") == "not_coordinator"), None) if isinstance(ec_, ClassV) else None
+        if m_ is not None:
+            concrete_members.append((m_, "ErrorCode.not_coordinator"))
+    except (Raised, Limit):
+        pass
     for name, (lo, hi) in sorted(expected.items()):
         cls = pv.get(name)
         if not isinstance(cls, ClassV):
@@ -115,6 +123,21 @@ def check(rep, ctx):
             a2, r2 = accept_conditions(I, cls, other_v)
             if a2:
                 problems.append(f"a {label} is accepted")
+        # "returned unchanged": a member that is an instance of an int subclass (a bool, an IntEnum member) comes back as the same object,
+        # not as a plain int of the same value
+        for probe, label in concrete_members:
+            pv_ = probe.value if isinstance(probe, EnumMemberV) else int(probe)
+            if not (lo <= pv_ <= hi):
+                continue
+            try:
+                res = I.call(cls, [probe], {}, Run(), None)
+            except Raised:
+                continue  # not accepted at all: membership of such values is decided by the symbolic rule above
+            except Limit as e:
+                rep.limit(f"{name}({label}) not evaluated: {e}")
+                continue
+            if res is not probe:
+                problems.append(f"{name}({label}) returns {res!r}, not the object it was given (the member is accepted but not returned unchanged)")
         rep.check(R_I, not problems, construct=f"kio.static.primitive:{name}", stmt=f"class {name}: low={lo} high={hi}",
                   message="; ".join(problems), file=file, line=cls.node.lineno)
     rep.sample({"rule": "C12-interval", "type": "i16", "accepting_path_conditions": "-32768 <= v and v <= 32767", "returns": "v"})
@@ -274,6 +297,17 @@ def check(rep, ctx):
     rep.check(R_T, not raising, construct=pred.ref, stmt="membership test raises", message="the predicate of the timestamp type is not total: " +
               "; ".join(sorted(set(raising))[:3]) + " -- isinstance(x, TZAware) / TZAware(x) must answer False / TypeError for a non-member and "
               "accept a member, never leak another exception", file=file, line=src_line, instance="total")
+    # every member of the duration / timestamp types reads back: the time readers accept every wire value a member is written as
+    from .wire import Wire, scalar_reader_domain_rows
+    for ok_, c_, stmt_, msg_, line_ in scalar_reader_domain_rows(Wire(ctx).bundle["primitives"]):
+        if not any(k_ in c_ for k_ in ("datetime", "timedelta")):
+            continue
+        if ok_ is None:
+            rep.limit(f"{c_}: {msg_}")
+            continue
+        rep.check(R_T if "datetime" in c_ else R_D, ok_, construct=c_, stmt=stmt_,
+                  message=msg_ + " -- a member of the value type is written but does not read back", file="src/kio/serial/readers.py", line=line_,
+                  instance=f"reads-back|{c_}")
     # every member of the timestamp type is written exactly (E6 on the writer the table selects)
     for opt in (False, True):
         w = I.call(gw, [], {"kafka_type": "datetime_i64", "flexible": False, "optional": opt}, Run(), None)
